@@ -75,6 +75,11 @@ def check(prop, tier, seed):
         return 3
     tasks = R.all_tasks()
     names = [n for n, (m, fn, props) in tasks.items() if prop in props]
+    conformance = None
+    if tier == 'thorough':
+        os.environ['PYVC_SECOND_OPINION'] = os.environ.get('PYVC_SECOND_OPINION', '150')
+        rc_c, out_c, dt_c = run_cmd('%s -m scenarios.conformance' % VENV_PY, 300)
+        conformance = dict(rc=rc_c, wall_s=round(dt_c, 1), tail=out_c[-400:])
     reports = R.run_tasks(names) if names else []
     known = load_known()
 
@@ -111,7 +116,18 @@ def check(prop, tier, seed):
     exit_code = 0
     replays = []
 
+    disagreements = [o for o in obligations if o['status'] == 'disagreement']
+    second = dict(asked=sum(r.get('second', {}).get('asked', 0) for r in reports),
+                  unsat=sum(r.get('second', {}).get('unsat', 0) for r in reports),
+                  unknown=sum(r.get('second', {}).get('unknown', 0) for r in reports),
+                  sat=sum(r.get('second', {}).get('sat', 0) for r in reports))
     # ---- checker failures
+    if conformance is not None and conformance['rc'] != 0:
+        sys.stderr.write('STUB CONFORMANCE FAILED:\n%s\n' % conformance['tail'])
+        exit_code = 3
+    for o in disagreements:
+        sys.stderr.write('SOLVER DISAGREEMENT on %s\n' % o['name'])
+        exit_code = 3
     if crashed or bad_canaries or bad_covers or (names and n_inst == 0):
         for r in crashed:
             sys.stderr.write('CHECKER ERROR in %s:\n%s\n' % (r['name'], r['errors'][0]))
@@ -248,6 +264,7 @@ def check(prop, tier, seed):
         undecided=[dict(task=t, reason=u[0], line=u[1]) for t, u in unsupported] +
                   [dict(obligation=n, reason='solver unknown') for n in unknown],
         bounded_not_proved=bounded, failed_obligations=sorted(failed), known_findings_matched=known_matched,
+        second_opinion_cvc5=second, stub_conformance=conformance,
         covers_checked=sum(len(r['covers']) for r in reports),
         canaries=sum(len(r['canaries']) for r in reports),
         dropped_by_reader=sorted({d for r in reports for d in r['dropped']} | {
@@ -283,6 +300,13 @@ def selfcheck():
     rc, out, dt = run_cmd('%s -c "import aiuti.asyncio, aiuti.filelock, aiuti.itertools, aiuti.parsing; print(1)"' % VENV_PY, 60)
     print('repo importable under /venv/bin/python:', rc == 0)
     ok &= rc == 0 and len(tasks) > 0
+    rc2, out2, dt2 = run_cmd('%s -m scenarios.conformance' % VENV_PY, 120)
+    print(out2.strip().splitlines()[-1] if out2.strip() else 'conformance: no output')
+    ok &= rc2 == 0
+    from . import selftest
+    n, bad = selftest.cross_execution()
+    print('executor vs CPython on selftest/samples.py: %d cases, %d disagreements' % (n, len(bad)))
+    ok &= not bad
     return 0 if ok else 3
 
 
@@ -298,6 +322,8 @@ def main():
     c.add_argument('prop')
     c.add_argument('--tier', default=os.environ.get('VERIF_TIER', 'quick'))
     sub.add_parser('selfcheck')
+    stp = sub.add_parser('selftest')
+    stp.add_argument('--variants', action='store_true')
     t = sub.add_parser('task')
     t.add_argument('name')
     a = ap.parse_args()
@@ -309,6 +335,12 @@ def main():
             import traceback
             traceback.print_exc()
             rc = 3
+        sys.exit(rc)
+    elif a.cmd == 'selftest':
+        from . import selftest
+        rc = selftest.main()
+        if a.variants and rc == 0:
+            rc = selftest.main_variants()
         sys.exit(rc)
     elif a.cmd == 'selfcheck':
         sys.exit(selfcheck())
